@@ -747,8 +747,27 @@ def b_bool(interp, st, fr, args, kw):
 
 @model('builtins.open')
 def b_open(interp, st, fr, args, kw):
+    from . import files
     mode = args[1] if len(args) > 1 else kw.get('mode', 'r')
+    if isinstance(mode, str):
+        return files.open_file(st, args[0], mode)
     return Opaque('file', (args[0], mode))
+
+
+@model('pickle.dump')
+def pk_dump(interp, st, fr, args, kw):
+    from . import files
+    return files.pickle_dump(interp, st, args[0], args[1])
+
+
+@model('pickle.load')
+def pk_load(interp, st, fr, args, kw):
+    from . import files
+    return files.pickle_load(interp, st, args[0])
+
+
+EXT['cPickle.dump'] = pk_dump
+EXT['cPickle.load'] = pk_load
 
 
 @model('builtins.input')
@@ -900,6 +919,18 @@ def call_method(interp, st, fr, obj, name, args, kw):
                 pass
             return Opaque('str')
         raise Unsupported("str.%s" % name)
+    if isinstance(obj, ObjRef) and st.heap[obj.addr].cls == '<file>':
+        from . import files
+        if name == 'close':
+            st.events.append(('close', obj.addr))
+            st.set_attr(obj, 'closed', True)
+            return None
+        if name == 'readline':
+            return files.readline(st, obj)
+        if name == 'write':
+            st.events.append(('file.write', obj.addr, args[0] if args else None))
+            return None
+        raise Unsupported("file.%s" % name)
     if isinstance(obj, Opaque):
         return opaque_method(interp, st, fr, obj, name, args, kw)
     if isinstance(obj, SymSeq):
